@@ -45,6 +45,10 @@ CLAIMED = {
         text="Lean theorems (all histories / all streams): every edit clears `initialized`, only initialize sets it and it fails iff some parameter has no value; species and parameter indices are append-only (indices handed out earlier stay valid); set_parameter changes that parameter alone; a rule pass, one SSA iteration and a whole run write no parameter that is not the destination of a parameter-assigning rule (jump_run_params_frame), the loop works on a copy of the initial condition; mt_seed overwrites all 312 words and the index. Tie and end-to-end decision: random edit histories on the real Model vs the Lean state machine after every operation, then vs a freshly built model of the same definition by seeded simulation in five modes (bitwise by species name), repeatability, dictionaries before/after, interface reuse scenarios.",
         note=NOTE_COMMON + "the statement 'same definition and seed => same output' itself is decided by the correspondence/oracle run (histories bounded by the generator), the Lean part proves the mechanisms it rests on; `initialized` is not Python-visible and is observed through interface refusal.",
         technique="Lean 4 proof (state-machine invariants, parameter frame by induction over runs) + history correspondence", ref="DESIGN.md §4 C08"),
+    "C16": dict(
+        text="Lean theorems over R against Mathlib's own densities: the model of each prior returns log(gaussianPDFReal), log(exponentialPDFReal), log(gammaPDFReal) (shape, rate), log(betaPDFReal), log(1/(ub-lb)), the log-uniform and log-normal densities written out, inside the support, and rejects (none = -inf posterior) outside it; the 'positive' flag rejects any vector with a negative entry; the log-prior of an accepted vector is the sum; the dispatch chain prior type -> method is regenerated from pid_interfaces.py by a translator and checked by decide. Tie: PIDInterface.check_prior vs the same Lean definitions run in Float (1e-12) over the seven families, boundary-near and out-of-support values, vectors of 1..4 parameters, flags; oracle scipy.stats logpdf; posterior at out-of-support theta through InferenceSetup.cost_function.",
+        note=NOTE_COMMON + "scipy.special.gamma/beta values are inputs of the model (taken to compute Gamma and B); numpy exp/log vs libm within 1e-12; underflow of far-tail densities excluded.",
+        technique="Lean 4 proof (identities against Mathlib pdfs; translator-regenerated dispatch table) + correspondence", ref="DESIGN.md §4 C16"),
 }
 PENDING = {}
 def main():
